@@ -2,10 +2,16 @@
 //!
 use super::{BlockError, SentinelRule, Snapshot};
 use crate::{Error, Result};
+#[cfg(not(sentinel_verif))]
 use lazy_static::lazy_static;
+#[cfg(sentinel_verif)]
+use sentinel_verif_rt::lazy_static;
 use std::collections::HashMap;
 use std::fmt;
+#[cfg(not(sentinel_verif))]
 use std::sync::{Arc, Mutex};
+#[cfg(sentinel_verif)]
+use sentinel_verif_rt::sync::{Arc, Mutex};
 
 type OtherBlockType = u8;
 
